@@ -108,7 +108,10 @@ pub fn run(ctx: &Ctx) -> ! {
         }
     }));
 
-    // ---- builders and record batches: FromIterator / builder finish / RecordBatch construction + slicing
+    // ---- builder histories
+    crate::c01_builders::run(ctx, &mut st);
+
+    // ---- record batches: RecordBatch construction + slicing + projection
     let mut rb = 0u64;
     for dt in grid.iter() {
         for col in columns(dt, 3, 2, true) {
